@@ -93,7 +93,10 @@ func runBig(c bigCase) (string, *mc.Viol) {
 			if e != nil {
 				return "error " + e.Error()
 			}
-			return fmt.Sprint(stdecdsa.Verify(&std.PublicKey, hash[:], rr, ss))
+			out := fmt.Sprint(stdecdsa.Verify(&std.PublicKey, hash[:], rr, ss))
+			rr.SetInt64(7) // results belong to the caller
+			ss.SetInt64(7)
+			return out
 		case "PrivateKey.Sign":
 			sig, e := priv.Sign(mc.NewStream(seedv, lbl), hash[:], nil)
 			if e != nil {
@@ -105,13 +108,19 @@ func runBig(c bigCase) (string, *mc.Viol) {
 			if e != nil {
 				return "error " + e.Error()
 			}
-			return p.X.String() + "," + p.Y.String()
+			out := p.X.String() + "," + p.Y.String()
+			p.X.SetInt64(7) // results belong to the caller
+			p.Y.SetInt64(7)
+			return out
 		case "UnblindPublicKeyWithContext":
 			p, e := ecdsa.UnblindPublicKeyWithContext(curve, blinded, bk, ctx)
 			if e != nil {
 				return "error " + e.Error()
 			}
-			return p.X.String() + "," + p.Y.String()
+			out := p.X.String() + "," + p.Y.String()
+			p.X.SetInt64(7)
+			p.Y.SetInt64(7)
+			return out
 		case "BlindKeySignWithContext":
 			rr, ss, e := ecdsa.BlindKeySignWithContext(mc.NewStream(seedv, lbl), priv, bk, hash[:], ctx)
 			if e != nil {
